@@ -466,8 +466,11 @@ static worker *choose(worker *cur) {
     }
     if (g_rp_sched_left > 0) { want = g_rp_sched.v[g_rp_sched_i - 2]; g_rp_sched_left--; }
     for (int i = 0; i < n; i++) if (en[i] == want) pick = (int)want;
-    if (pick < 0) { g_replay_diverged = 1; pick = cur_en ? cur->id : en[0]; }
-  } else if (g_drain) {
+    if (pick < 0) g_replay_diverged = 1;   /* recorded decisions exhausted or not applicable: continue FAIRLY (below), never
+                                              "keep running the current worker" -- that would turn any polling loop into a hang */
+  }
+  if (pick >= 0) ;
+  else if (g_drain || g_replay) {
     if (cur_en && g_rr_left > 0) { g_rr_left--; pick = cur->id; }
     else {
       pick = en[0];
@@ -617,6 +620,8 @@ void myth_verif_point(int site) {
   mvsim_enter(&r);
 }
 void mvsim_user_point(void) { myth_verif_point(MYTH_VS_NONE); }
+/* a user-level busy-wait iteration: the caller is not scheduled again before some other worker made progress */
+void mvsim_user_spin(void) { myth_verif_spin(MYTH_VS_NONE); }
 
 /* function-granularity schedule points (build flavour "fn": library compiled with
    -finstrument-functions).  They are scheduling decisions only: they neither count nor clear
